@@ -9,6 +9,7 @@ import (
 	"reflect"
 	"strconv"
 	"strings"
+	"unicode/utf8"
 )
 
 // Node represents a node in the template parse tree
@@ -424,7 +425,8 @@ func (n *ForNode) renderForLoop(w io.Writer, ctx *RenderContext, seq interface{}
 	case reflect.Map:
 		length = val.Len()
 	case reflect.String:
-		length = val.Len()
+		// a string is iterated character by character
+		length = utf8.RuneCountInString(val.String())
 	default:
 		// For other types, try to convert to an interface slice
 		// to support custom iterables
@@ -534,7 +536,11 @@ func (n *ForNode) renderForLoop(w io.Writer, ctx *RenderContext, seq interface{}
 		}
 
 	case reflect.String:
-		for i, char := range val.String() {
+		// the position of a character is its number in the string, not its byte offset
+		i := -1
+		for _, char := range val.String() {
+			i++
+
 			// Set the loop variables
 			loopVars["loop"].(map[string]interface{})["index"] = i + 1
 			loopVars["loop"].(map[string]interface{})["index0"] = i
